@@ -281,6 +281,9 @@ pub fn exec_mat(ops: Vec<Op>, seed: u64) -> Case {
                 if !s.values().all(|a| a.m.is_bijection()) {
                     // not even a well-formed invocation: reported once, not passed on to the model
                     viol("multi-match-non-bijective-invocation", &mut tags);
+                    if std::env::var("SV_DEBUG").is_ok() {
+                        eprintln!("DEBUG non-bijective: pattern `{text}` subst {}", enc_subst(s));
+                    }
                     continue;
                 }
                 for (o, n, ks) in &eqs {
